@@ -31,6 +31,7 @@ type plan struct {
 	NotDecided []string
 	Bounded    []string
 	Refines    [][2]string
+	RefineModel map[string]map[string]string // impl key -> interface spec function -> model spec function
 	Thorough   [][2]string // label, shell command: independent or bounded cross-checks run in the thorough tier only
 }
 
@@ -90,8 +91,20 @@ func readPlan(path string) (*plan, error) {
 		case "refine":
 			// refine <implementation method> <interface method key>
 			f := strings.Fields(rest)
+			// refine <impl> <iface> [model ifaceFn=implFn ...]: the interface's uninterpreted spec functions are read as
+			// the implementation's definitions (clients are verified for every interpretation, so one suffices)
+			var model map[string]string
+			if len(f) > 3 && f[2] == "model" {
+				model = map[string]string{}
+				for _, kv := range f[3:] {
+					if i := strings.Index(kv, "="); i > 0 {
+						model[kv[:i]] = kv[i+1:]
+					}
+				}
+				f = f[:2]
+			}
 			if len(f) != 2 {
-				return nil, fmt.Errorf("%s: refine <impl> <iface>", path)
+				return nil, fmt.Errorf("%s: refine <impl> <iface> [model a=b ...]", path)
 			}
 			key := f[0]
 			if pkg != "" && !strings.Contains(key, "/") {
@@ -105,6 +118,12 @@ func readPlan(path string) (*plan, error) {
 				}
 			}
 			p.Refines = append(p.Refines, [2]string{key, f[1]})
+			if model != nil {
+				if p.RefineModel == nil {
+					p.RefineModel = map[string]map[string]string{}
+				}
+				p.RefineModel[key] = model
+			}
 		case "replay":
 			f := strings.Fields(rest)
 			if len(f) == 2 {
@@ -226,7 +245,7 @@ func checkCmd(args []string) {
 		u := &unit{name: "refine:" + rf[0]}
 		units = append(units, u)
 		u.pos = rf[1]
-		u.ex = &vc.Exec{P: prog, Out: vc.NewScript()}
+		u.ex = &vc.Exec{P: prog, Out: vc.NewScript(), SpecModel: pl.RefineModel[rf[0]]}
 		u.err = u.ex.VerifyRefinement(rf[0], rf[1])
 	}
 	// solve
